@@ -2,22 +2,42 @@
 use crate::report::{Report, Tier};
 
 pub mod common;
+pub mod c01;
 pub mod c02;
+pub mod c06;
+pub mod c07;
+pub mod c08;
+pub mod c16;
+pub mod c11;
+pub mod c12;
 
-pub fn run(id: &str, tier: Tier) -> Option<i32> {
-    let code = match id {
-        "C02" => { let r = Report::new("C02", tier); c02::run(&r); r.finish() }
-        _ => return None,
+macro_rules! props {
+    ($($id:literal => $m:ident),* $(,)?) => {
+        pub fn run(id: &str, tier: Tier) -> Option<i32> {
+            match id {
+                $($id => { let r = Report::new($id, tier); $m::run(&r); Some(r.finish()) })*
+                _ => None,
+            }
+        }
+        pub fn replay(case: &serde_json::Value) -> Result<String, String> {
+            match case.get("property").and_then(|k| k.as_str()).unwrap_or("") {
+                $($id => $m::replay(case),)*
+                other => Err(format!("replay file names unknown property {other:?}")),
+            }
+        }
+        pub const ALL: &[&str] = &[$($id),*];
     };
-    Some(code)
 }
 
-pub fn replay(case: &serde_json::Value) -> Result<String, String> {
-    let kind = case.get("kind").and_then(|k| k.as_str()).unwrap_or("");
-    match kind {
-        "range_history" => c02::replay(case),
-        _ => Err(format!("unknown replay kind {kind:?}")),
-    }
+props! {
+    "C01" => c01,
+    "C02" => c02,
+    "C06" => c06,
+    "C07" => c07,
+    "C08" => c08,
+    "C16" => c16,
+    "C11" => c11,
+    "C12" => c12,
 }
 
 /// Entry point for isolated child processes (`cvmc child <ID> ...`).
